@@ -344,6 +344,8 @@ class TJPTransformer(Transformer[Any, Any]):
         match = re.match(r"(\d+(?:\.\d+)?)\s*([hdwmymin]+)", str(duration))
         if match:
             value: float = float(match.group(1))
+            if value == float("inf"):
+                raise ValueError(f"timingresolution {duration} is out of range (more than 0, at most 1 week)")
             unit: str = match.group(2) or "h"
             seconds: int
             if unit == "min":
